@@ -444,6 +444,9 @@ def rules(rep, facts):
     from .shared import presized_from_hint
     R8 = rep.rule('C04/R8', 'no allocation is sized by an untrusted size_hint() (a huge claim aborts with "capacity overflow")', floor=1)
     presized_from_hint(rep, R8, facts)
+    from .shared import no_reparse
+    no_reparse(rep, rep.rule('C04/R10', 'a bounded amount of work: no recursive construct is parsed twice from one position (backtracking over a nested array or inline table multiplies '
+                                        'with the depth, 2^depth parses)', floor=1), g)
     if 'parse' in set(facts.crates.get('toml_edit', {}).get('features', [])):
         r9_counter_balanced(rep, facts, facts.config)
         if facts.config == 'default':
